@@ -249,7 +249,15 @@ def one_run(seed, run, force_config=None, overrides=None, max_diag=3, seq_only=F
             a_show, r_show = a_s, r_n
         else:
             kind = "thread" if config == "thr" else "fault"
-            payload_exec = {"config": config, "plan": plan, "trace": trace}
+            tr2 = trace
+            if kind == "thread":
+                def _fails(tr):
+                    e3, _, _ = execute_phases(program, n1, n2, st, plan, trace=tr)
+                    return bool(obs.diff(engine.slot_obs(e3, victim, **okw), r))
+                tr2, _ok = sched.minimise_trace(_fails, trace)
+            payload_exec = {"config": config, "plan": plan, "trace": tr2,
+                            "schedule": {"decisions_recorded": len(trace), "decisions_after_minimisation": len(tr2),
+                                         "preemptions_after_minimisation": sched.preemptions(tr2)}}
             a_show, r_show = a, r
         sig = f"{PROP}:{kind}:{what}:{label}"
         if sig in seen:
